@@ -639,9 +639,21 @@ pub fn run(ctx: &Ctx) -> Outcome {
                     let done = std::sync::Arc::new(std::sync::atomic::AtomicBool::new(false));
                     let done2 = done.clone();
                     let wd = std::thread::spawn(move || {
+                        // the limit is CPU time of the worker (utime + stime from /proc): wall-clock time would also
+                        // count what else the machine is doing; 30 min of wall-clock time remain as a back-stop
                         let t0 = Instant::now();
+                        let cpu_s = || -> f64 {
+                            std::fs::read_to_string(format!("/proc/{pid}/stat"))
+                                .ok()
+                                .and_then(|st| {
+                                    let rest = st.rsplit_once(')')?.1.to_string();
+                                    let f: Vec<&str> = rest.split_whitespace().collect();
+                                    Some((f.get(11)?.parse::<f64>().ok()? + f.get(12)?.parse::<f64>().ok()?) / 100.0)
+                                })
+                                .unwrap_or(0.0)
+                        };
                         while !done2.load(Ordering::Relaxed) {
-                            if t0.elapsed() > Duration::from_secs(120) {
+                            if cpu_s() > 120.0 || t0.elapsed() > Duration::from_secs(1800) {
                                 unsafe {
                                     libc::kill(pid as i32, libc::SIGKILL);
                                 }
